@@ -3277,6 +3277,7 @@ struct RegistryT<
 	struct BackUp final {
 		CompoForks compoRequested;
 		OrthoForks orthoRequested;
+		CompoRemains compoRemains;
 	};
 
 	HFSM2_CONSTEXPR(14)	Prong activeSubState		(const StateID stateId)	  const noexcept;
@@ -3584,6 +3585,7 @@ void
 RegistryT<ArgsT<TG_, TSL_, TRL_, NCC_, NOC_, NOU_, TRO_ HFSM2_IF_SERIALIZATION(, NSB_) HFSM2_IF_PLANS(, NTC_), TTP_>>::backup(BackUp& copy) const noexcept {
 	overwriteWith(copy.compoRequested, compoRequested);
 	overwriteWith(copy.orthoRequested, orthoRequested);
+	copy.compoRemains = compoRemains;
 }
 
 template <typename TG_, typename TSL_, typename TRL_, Long NCC_, Long NOC_, Long NOU_, typename TRO_ HFSM2_IF_SERIALIZATION(, Long NSB_) HFSM2_IF_PLANS(, Long NTC_), typename TTP_>
@@ -3592,6 +3594,7 @@ void
 RegistryT<ArgsT<TG_, TSL_, TRL_, NCC_, NOC_, NOU_, TRO_ HFSM2_IF_SERIALIZATION(, NSB_) HFSM2_IF_PLANS(, NTC_), TTP_>>::restore(const BackUp& copy) noexcept {
 	overwriteWith(compoRequested, copy.compoRequested);
 	overwriteWith(orthoRequested, copy.orthoRequested);
+	compoRemains = copy.compoRemains;
 }
 
 template <typename TG_, typename TSL_, typename TRL_, Long NCC_, Long NOC_, Long NOU_, typename TRO_ HFSM2_IF_SERIALIZATION(, Long NSB_) HFSM2_IF_PLANS(, Long NTC_), typename TTP_>
@@ -3658,6 +3661,7 @@ struct RegistryT<
 
 	struct BackUp final {
 		CompoForks compoRequested;
+		CompoRemains compoRemains;
 	};
 
 	HFSM2_CONSTEXPR(14)	Prong activeSubState	(const StateID stateId)	  const noexcept;
@@ -3913,6 +3917,7 @@ HFSM2_CONSTEXPR(14)
 void
 RegistryT<ArgsT<TG_, TSL_, TRL_, NCC_, 0, 0, TRO_ HFSM2_IF_SERIALIZATION(, NSB_) HFSM2_IF_PLANS(, NTC_), TTP_>>::backup(BackUp& copy) const noexcept {
 	overwriteWith(copy.compoRequested, compoRequested);
+	copy.compoRemains = compoRemains;
 }
 
 template <typename TG_, typename TSL_, typename TRL_, Long NCC_, typename TRO_ HFSM2_IF_SERIALIZATION(, Long NSB_) HFSM2_IF_PLANS(, Long NTC_), typename TTP_>
@@ -3920,6 +3925,7 @@ HFSM2_CONSTEXPR(14)
 void
 RegistryT<ArgsT<TG_, TSL_, TRL_, NCC_, 0, 0, TRO_ HFSM2_IF_SERIALIZATION(, NSB_) HFSM2_IF_PLANS(, NTC_), TTP_>>::restore(const BackUp& copy) noexcept {
 	overwriteWith(compoRequested, copy.compoRequested);
+	compoRemains = copy.compoRemains;
 }
 
 template <typename TG_, typename TSL_, typename TRL_, Long NCC_, typename TRO_ HFSM2_IF_SERIALIZATION(, Long NSB_) HFSM2_IF_PLANS(, Long NTC_), typename TTP_>
